@@ -117,7 +117,7 @@ class OneLeftOperandExpressionToken(RecursiveCompositeBaseToken):
 
 
 class OperatorToken(CompositeBaseToken):
-    _TOKEN_SETS = [[ArithmeticOperatorToken], [LogicalOperatorToken], [AmpersandOperatorToken], [PercentOperatorToken]]
+    _TOKEN_SETS = [[ArithmeticOperatorToken], [LogicalOperatorToken], [AmpersandOperatorToken]]
 
     @property
     def operator(self):
